@@ -18,7 +18,7 @@ for pid in props:
     if not ok:
         print(log[-2000:])
         sys.exit("build failed for %s" % pid)
-    res, out, rc = common.lean_audit(mod.PROP_MODULE, mod.THEOREMS)
+    res, out, rc = common.lean_audit([mod.PROP_MODULE] + [m for m in mod.LEAN_MODULES if m.startswith("Pff.Props.")], mod.THEOREMS)
     for t in mod.THEOREMS:
         if t not in res or "statement" not in res[t]:
             print(out[-2000:])
